@@ -24,7 +24,7 @@ def run(tier, only=None):
     from families import f01
 
     progs = f01.all_programs(tier)
-    progs = f01.select(progs, "quick", seed(), 260 if tier == "quick" else 6000)
+    progs = f01.select(progs, "quick", seed(), 320 if tier == "quick" else 6000)
     if tier != "quick":
         # solver budget (measured: every z3 timeout of the thorough tier at 300 s had one of these shapes): a reduction / group-by over a
         # filtered join of filtered inputs, or over an OR-filter above a join / shuffle, is bounded out of the thorough family; the
